@@ -38,7 +38,8 @@ CFGS = {
     "ibc_q": dict(Extras='{"stray"}', Outcomes='{"ok", "err", "timeout"}', SubmitFails="{0}", Returns='{"exact"}', UnstakeAmts="{3}",
                   RewardAmts="{}", MaxBatches="1", MaxN="6", MaxSeq="4", MaxPk="3", MaxTime="0"),
     # breaker / authorisation: starts halted, every principal tries everything
-    "gate_q": dict(Extras='{"wrongsender", "matrix", "direct"}', StartHalted="TRUE", Principals='{"u1", "admin", "mon1", "admin2"}', Returns='{"exact"}',
+    "gate_q": dict(Extras='{"wrongsender", "matrix", "direct"}', StartHalted="TRUE",
+                   Principals='{"u1", "admin", "mon1", "admin2", "contract", "hook|channel-1|staker", "hook|channel-1|collector"}', Returns='{"exact"}',
                    MaxN="6", MaxSeq="3", MaxBatches="2", MaxPk="2", TreasuryAddr='"treasury"', RcvKinds='{"self"}', MaxTime="5"),
     # ---------------------------------------------------------------- thorough tier: focused extensions, one dimension each
     "flow_long_t": dict(Returns='{"exact", "long"}', MaxN="8"),
@@ -54,11 +55,12 @@ CFGS = {
                   UnstakeAmts="{3}", RewardAmts="{2}", MaxBatches="1", MaxN="6", MaxSeq="5", MaxPk="3", MaxTime="0", Principals='{"u1", "admin", "mon1"}'),
     "ibc2_t": dict(Extras='{"stray"}', Outcomes='{"ok", "err", "timeout"}', SubmitFails="{0}", Returns='{"exact"}', Users='{"u1", "u2"}',
                    UnstakeAmts="{3}", RewardAmts="{}", MaxBatches="1", MaxN="6", MaxSeq="4", MaxPk="3", MaxTime="0"),
-    "gate_t": dict(Extras='{"wrongsender", "matrix", "direct", "stray"}', StartHalted="TRUE", Principals='{"u1", "u2", "admin", "mon1", "mon2", "admin2", "treasury"}',
+    "gate_t": dict(Extras='{"wrongsender", "matrix", "direct", "stray"}', StartHalted="TRUE",
+                   Principals='{"u1", "u2", "admin", "mon1", "mon2", "admin2", "treasury", "contract", "hook|channel-1|staker", "hook|channel-1|collector"}',
                    Returns='{"exact"}', MaxN="6", MaxSeq="3", MaxBatches="2", MaxPk="2", TreasuryAddr='"treasury"', RcvKinds='{"self", "native"}', MaxTime="5",
                    ResumeScales='{"same", "down", "up"}'),
     # the admin-only messages by EVERY principal including the admin (state-changing): small value flow
-    "gateadmin_t": dict(Extras='{"matrixadmin"}', StartHalted="TRUE", Principals='{"u1", "admin", "mon1", "admin2"}', UnstakeAmts="{}", RewardAmts="{}",
+    "gateadmin_t": dict(Extras='{"matrixadmin"}', StartHalted="TRUE", Principals='{"u1", "admin", "mon1", "admin2", "contract"}', UnstakeAmts="{}", RewardAmts="{}",
                         Returns="{}", MaxN="3", MaxSeq="2", MaxBatches="1", MaxPk="1", TreasuryAddr='"treasury"', RcvKinds='{"self"}', MaxTime="0"),
 }
 
